@@ -16,8 +16,10 @@ import torch
 
 from tjv.rt import gen
 from tjv.rt.aggs import make_agg
+from ._autojac import as_container
 
-RULE = ("(function in {backward, mtl_backward}) x (template in {matvec, multi-output, scalars-with-reuse}) x row "
+RULE = ("(function in {backward, mtl_backward}; parameter lists given as list / tuple / one-shot iterator / generator) "
+        "x (template in {matvec, multi-output, scalars-with-reuse}) x row "
         "count m x chunk size k in {None, 1..m+2} x retain_graph x random constants (seed). m = number of output "
         "scalars (backward) / of tasks (mtl_backward). Oracle: same call with k=None on a twin graph for the "
         "values; ceil(m/k) for the sweep count; torch.vmap must not be entered when k=1 or m=1. A 'hostile' "
@@ -249,11 +251,16 @@ def _invoke(case, built, k):
 
     dtype = built["leaves"][0].dtype
     agg = make_agg({"name": "Constant", "kind": "distinct"}, case["m"], dtype)
+    # kind of iterable used for the parameter lists (a function of the case: half of the cases use a one-shot one)
+    how = ["list", "iter", "tuple", "gen"][case["seed"] % 4]
     if case["fn"] == "backward":
-        backward(built["tensors"], agg, inputs=built["inputs"], retain_graph=case["retain"], parallel_chunk_size=k)
+        backward(built["tensors"], agg, inputs=as_container(built["inputs"], how), retain_graph=case["retain"],
+                 parallel_chunk_size=k)
     else:
-        mtl_backward(built["losses"], built["features"], agg, tasks_params=built["tasks_params"],
-                     shared_params=built["shared_params"], retain_graph=case["retain"], parallel_chunk_size=k)
+        mtl_backward(built["losses"], built["features"], agg,
+                     tasks_params=[as_container(tp, how) for tp in built["tasks_params"]],
+                     shared_params=as_container(built["shared_params"], how), retain_graph=case["retain"],
+                     parallel_chunk_size=k)
 
 
 def _build(case):
